@@ -12,6 +12,12 @@ VARIABLES l, nrej
 IsStrRet(r) == r.k = "ret" /\ r.t = "str"
 A1(e) == e.kind = "val" => (IsStrRet(e.r) <=> F!Accept(e.f, F!Canon(e.f, e.x)))
 A2(e) == (e.kind = "val" /\ IsStrRet(e.r)) => e.r.v = F!Canon(e.f, e.x)
+(* the documented option convert=True of isbn.validate(): same accept set, the result is the ISBN-13 *)
+To13(c) == IF Len(c) = 13 THEN c
+           ELSE LET b == <<57, 55, 56>> \o SubSeq(c, 1, 9)
+                IN b \o <<48 + ((10 - (F!Sum(LAMBDA i : (IF i % 2 = 1 THEN 1 ELSE 3) * F!D(b[i]), 12) % 10)) % 10)>>
+A3(e) == e.kind = "valc" => /\ (IsStrRet(e.r) <=> F!Accept(e.f, F!Canon(e.f, e.x)))
+                            /\ (IsStrRet(e.r) => e.r.v = To13(F!Canon(e.f, e.x)))
 (* block digests: payload number p (zero filled to width w) for p in lo..lo+n-1; checks[i] the character the code appended *)
 Digits(p, w) == [i \in 1..w |-> 48 + ((p \div (10 ^ (w - i))) % 10)]
 CheckOf(fmt, body) ==
@@ -19,8 +25,8 @@ CheckOf(fmt, body) ==
     [] fmt = "imo" -> 48 + (F!Sum(LAMBDA i : (8 - i) * F!D(body[i]), 6) % 10)
     [] fmt = "ean8" -> 48 + ((10 - (F!Sum(LAMBDA i : (IF i % 2 = 1 THEN 3 ELSE 1) * F!D(body[i]), 7) % 10)) % 10)
 B1(e) == e.kind = "block" => \A i \in 1..Len(e.checks) : e.checks[i] = CheckOf(e.f, Digits(e.lo + i - 1, e.w))
-ClauseNames == <<"A1", "A2", "B1">>
-Clauses(e) == [A1 |-> A1(e), A2 |-> A2(e), B1 |-> B1(e)]
+ClauseNames == <<"A1", "A2", "A3", "B1">>
+Clauses(e) == [A1 |-> A1(e), A2 |-> A2(e), A3 |-> A3(e), B1 |-> B1(e)]
 Failing(e) == LET c == Clauses(e) IN SelectSeq(ClauseNames, LAMBDA n : ~c[n])
 Init == l = 1 /\ nrej = 0
 Step == /\ l <= Len(Trace)
